@@ -281,7 +281,7 @@ where
 	K: Keychain + 'a,
 {
 	// Create a potential output for this transaction
-	let key_id = keys::next_available_key(wallet, keychain_mask).unwrap();
+	let key_id = keys::next_available_key(wallet, keychain_mask)?;
 	let keychain = wallet.keychain(keychain_mask)?;
 	let key_id_inner = key_id.clone();
 	let amount = slate.amount;
@@ -597,7 +597,7 @@ where
 				part_change
 			};
 
-			let change_key = wallet.next_child(keychain_mask).unwrap();
+			let change_key = wallet.next_child(keychain_mask)?;
 
 			change_amounts_derivations.push((change_amount, change_key.clone(), None));
 			parts.push(build::output(change_amount, change_key));
